@@ -1,6 +1,7 @@
 package rules
 
 import (
+	"fmt"
 	"go/token"
 	"go/types"
 	"strings"
@@ -514,4 +515,438 @@ func runPATHRECORD(c *Ctx) {
 	if n == 0 {
 		c.AnchorMissing("a success return of findNode that is not the recursive call's")
 	}
+}
+
+// DESCENTSTOP and ITERLAZY: two more faces of "read only what the answer needs" (C16).
+//
+// DESCENTSTOP: the shared descent (findNode) stops at the node that holds the probe. Exact operations aim at the
+// key's own layer and never notice, but a range scan aims at layer 0 and would read the whole spine below a key it
+// has already found in an upper layer.
+//
+// ITERLAZY: iteration hands entries to the callback as it goes and loads a child only when the walk reaches it: an
+// iteration stopped by the callback (ErrIterDone) after the first entry reads one spine, not every sibling on the way.
+
+func init() {
+	Register(&Rule{ID: "DESCENTSTOP", Props: []string{"C16"}, Min: 1,
+		Doc: "in the descent (findNode, by role) every call that reads the next node is reached only where the comparison of the probe with this node's keys did not come out equal (the cmp != 0 edge of a test of a comparator result), on every path (must-dataflow; a new comparison invalidates the knowledge).",
+		Run: runDESCENTSTOP})
+	Register(&Rule{ID: "ITERLAZY", Props: []string{"C16"}, Min: 2,
+		Doc: "in the functions that walk a node for Iter/SeekIter (they take the entry callback) every loop that loads a child also delivers in the same loop (calls the callback, or hands the child with the callback to a walker): no loop loads children ahead of the walk.",
+		Run: runITERLAZY})
+}
+
+// comparatorValued: v is a key-comparison result, or a variable that only ever holds such results and constants.
+func comparatorValued(c *Ctx, v ssa.Value, cmps map[ssa.Value]bool, d int) bool {
+	if d > 4 {
+		return false
+	}
+	if cmps[v] {
+		return true
+	}
+	if ld, ok := v.(*ssa.UnOp); ok && ld.Op == token.MUL {
+		if a, ok := ld.X.(*ssa.Alloc); ok {
+			stores, _ := ir.AllCellStores(a)
+			any := false
+			for _, st := range stores {
+				if _, isC := st.Val.(*ssa.Const); isC {
+					continue
+				}
+				if l2, isLd := st.Val.(*ssa.UnOp); isLd && l2.Op == token.MUL && l2.X == ssa.Value(a) {
+					continue // the variable stored back into itself (a named result on return)
+				}
+				if !comparatorValued(c, st.Val, cmps, d+1) {
+					return false
+				}
+				any = true
+			}
+			return any
+		}
+		if fv, ok := ld.X.(*ssa.FreeVar); ok {
+			if b, ok := bindingOf(fv).(*ssa.Alloc); ok {
+				stores, _ := ir.AllCellStores(b)
+				any := false
+				for _, st := range stores {
+					if _, isC := st.Val.(*ssa.Const); isC {
+						continue
+					}
+					if !comparatorValued(c, st.Val, cmps, d+1) {
+						return false
+					}
+					any = true
+				}
+				return any
+			}
+		}
+	}
+	if phi, ok := v.(*ssa.Phi); ok {
+		any := false
+		for _, e := range phi.Edges {
+			if _, isC := e.(*ssa.Const); isC {
+				continue
+			}
+			if !comparatorValued(c, e, cmps, d+1) {
+				return false
+			}
+			any = true
+		}
+		return any
+	}
+	// a result of a same-package search helper (`i, cmp, err := node.searchKeys(m, key)`)
+	if ex, ok := v.(*ssa.Extract); ok {
+		if call, ok := ex.Tuple.(*ssa.Call); ok {
+			if h := ir.Callee(call.Call); h != nil && h.Blocks != nil && h.Pkg != nil && h.Pkg.Pkg.Path() == ir.MastPath {
+				any := false
+				for _, r := range ir.Returns(h) {
+					if ex.Index >= len(r.Results) {
+						return false
+					}
+					rv := ir.ForwardLoad(r.Results[ex.Index])
+					if _, isC := rv.(*ssa.Const); isC {
+						continue
+					}
+					if !comparatorValued(c, rv, cmps, d+1) {
+						return false
+					}
+					any = true
+				}
+				return any
+			}
+		}
+	}
+	return false
+}
+
+// foundValued: v is a boolean that is true exactly when a comparison came out equal: `cmp == 0` over a comparator
+// value, or such a result of a same-package search helper (constants false allowed: "no comparison made").
+func foundValued(c *Ctx, v ssa.Value, cmps map[ssa.Value]bool, d int) bool {
+	if d > 3 {
+		return false
+	}
+	v = ir.ResolveCell(v)
+	if bin, ok := v.(*ssa.BinOp); ok && bin.Op == token.EQL {
+		if k, isK := ir.ConstInt(bin.Y); isK && k == 0 {
+			return comparatorValued(c, bin.X, cmps, 0)
+		}
+	}
+	if ex, ok := v.(*ssa.Extract); ok {
+		if call, ok := ex.Tuple.(*ssa.Call); ok {
+			if h := ir.Callee(call.Call); h != nil && h.Blocks != nil && h.Pkg != nil && h.Pkg.Pkg.Path() == ir.MastPath {
+				any := false
+				for _, r := range ir.Returns(h) {
+					if ex.Index >= len(r.Results) {
+						return false
+					}
+					rv := ir.ForwardLoad(r.Results[ex.Index])
+					if b, isC := ir.ConstBool(rv); isC {
+						if b {
+							return false
+						}
+						continue
+					}
+					if !foundValued(c, rv, cmps, d+1) {
+						return false
+					}
+					any = true
+				}
+				return any
+			}
+		}
+	}
+	return false
+}
+
+func runDESCENTSTOP(c *Ctx) {
+	P := c.P
+	fn := c.MustFunc("(*mastNode).findNode")
+	if fn == nil {
+		return
+	}
+	cmps := map[ssa.Value]bool{}
+	for _, v := range comparatorResults(c) {
+		cmps[v] = true
+	}
+	n := 0
+	for _, ci := range CallsOf(fn) {
+		call, ok := ci.(*ssa.Call)
+		if !ok {
+			continue
+		}
+		reads := false
+		for _, callee := range c.Facts.Callees(ci) {
+			if c.Facts.MayLoad[callee] && callee != fn {
+				reads = true
+			}
+		}
+		if !reads {
+			continue
+		}
+		n++
+		ok2 := ir.FlowFact(call, func(fc ir.Fact) bool {
+			if !fc.Truth && foundValued(c, fc.Cond, cmps, 0) {
+				return true // `found` is false
+			}
+			bin, isBin := fc.Cond.(*ssa.BinOp)
+			if !isBin {
+				return false
+			}
+			k, isK := ir.ConstInt(bin.Y)
+			if !isK || k != 0 || !comparatorValued(c, bin.X, cmps, 0) {
+				return false
+			}
+			return (bin.Op == token.EQL && !fc.Truth) || (bin.Op == token.NEQ && fc.Truth) || (bin.Op == token.LSS && fc.Truth) || (bin.Op == token.GTR && fc.Truth)
+		}, func(i ssa.Instruction) bool {
+			// a new comparison (directly, or by the search that runs the predicate) may change the variable
+			if st, isSt := i.(*ssa.Store); isSt {
+				if a, isA := st.Addr.(*ssa.Alloc); isA {
+					ld := &ssa.UnOp{}
+					_ = ld
+					stores, _ := ir.AllCellStores(a)
+					for _, s2 := range stores {
+						if cmps[s2.Val] {
+							return true
+						}
+					}
+				}
+			}
+			if c2, isCall := i.(*ssa.Call); isCall {
+				for _, a := range c2.Call.Args {
+					if _, isClosure := a.(*ssa.MakeClosure); isClosure {
+						return true
+					}
+				}
+				if cmps[c2] {
+					return true
+				}
+			}
+			return false
+		})
+		if ok2 {
+			c.OK(P.InstrPos(call), "next node read by the descent", "only where the probe was not found in this node", false)
+		} else {
+			c.Violation(fn, P.InstrPos(call), "the descent goes on below a node that holds the probe",
+				"findNode reads the next node without having tested that the comparison with this node's keys did not come out equal: a range scan (SeekIter descends to layer 0) then walks the whole spine below a key it already found in an upper layer — the same result for up to height extra reads")
+		}
+	}
+	if n == 0 {
+		c.AnchorMissing("a node-reading call in findNode")
+	}
+}
+
+func runITERLAZY(c *Ctx) {
+	P := c.P
+	roots := c.Entries("(*Mast).Iter", "(*Mast).SeekIter")
+	reach := c.Facts.Reach(roots...)
+	n := 0
+	for _, fn := range P.Funcs {
+		if fn.Pkg == nil || fn.Pkg.Pkg.Path() != ir.MastPath || !reach[ir.Outermost(fn)] {
+			continue
+		}
+		// takes the entry callback: func(key, value) error
+		var cb *ssa.Parameter
+		for _, p := range fn.Params {
+			if sig, ok := p.Type().Underlying().(*types.Signature); ok && sig.Params().Len() == 2 && sig.Results().Len() == 1 && ir.IsErrorType(sig.Results().At(0).Type()) {
+				cb = p
+			}
+		}
+		if cb == nil || len(fn.Params) == 0 || !isNodePtr(fn.Params[0].Type()) {
+			continue
+		}
+		// the cycles of fn: blocks grouped by mutual reachability
+		for _, b := range fn.Blocks {
+			if !inCycle(b) {
+				continue
+			}
+			for _, ins := range b.Instrs {
+				call, ok := ins.(*ssa.Call)
+				if !ok {
+					continue
+				}
+				loads, handsOn := false, false
+				for _, callee := range c.Facts.Callees(call) {
+					if c.Facts.MayLoad[callee] {
+						if usesValue(call, cb) {
+							handsOn = true
+						} else {
+							loads = true
+						}
+					}
+				}
+				if handsOn && !loads {
+					n++
+					c.OK(P.InstrPos(call), "child walked by "+ir.FuncName(fn), "the callee that reads it is handed the callback: it delivers as it goes", true)
+					continue
+				}
+				if !loads {
+					continue
+				}
+				n++
+				delivers := false
+				fromB := ir.ReachableFrom(b, nil)
+				for _, b2 := range fn.Blocks {
+					if !fromB[b2] || !ir.ReachableFrom(b2, nil)[b] {
+						continue // not in the same cycle
+					}
+					for _, i2 := range b2.Instrs {
+						c2, ok := i2.(*ssa.Call)
+						if !ok {
+							continue
+						}
+						if ir.ResolveCell(c2.Call.Value) == ssa.Value(cb) || usesValue(c2, cb) {
+							delivers = true
+						}
+					}
+				}
+				if delivers {
+					c.OK(P.InstrPos(call), "child loaded by "+ir.FuncName(fn), "in the loop that delivers its entries", false)
+				} else {
+					c.Violation(fn, P.InstrPos(call), "children are loaded ahead of the walk",
+						"a loop of the node walk loads children without delivering anything in the same loop: an iteration the callback stops after the first entry has by then read every sibling on its path (19 nodes instead of 6 on a height-5 tree)")
+				}
+			}
+		}
+	}
+	if n == 0 {
+		c.AnchorMissing("a child load inside a loop of the node walk")
+	}
+}
+
+// usesValue: the call passes v as an argument.
+func usesValue(call *ssa.Call, v ssa.Value) bool {
+	for _, a := range call.Call.Args {
+		if ir.ResolveCell(a) == v {
+			return true
+		}
+	}
+	return false
+}
+
+// RECURUSE: a recursive tree operation that hands back several things (split: the part left of the key and the part
+// right of it) is called by itself for all of them. Dropping one and recomputing it (loading and splitting the same
+// child again for the other half) gives the same tree and doubles the reads at every level below.
+
+func init() {
+	Register(&Rule{ID: "RECURUSE", Props: []string{"C16"}, Min: 2,
+		Doc: "every call inside a recursion of package mast (the callee can reach the caller again) to a function that returns two or more non-error results uses each of them in live code (outside diagnostics): no half of a recursive split is thrown away and recomputed.",
+		Run: runRECURUSE})
+}
+
+func runRECURUSE(c *Ctx) {
+	P := c.P
+	n := 0
+	for _, fn := range P.Funcs {
+		if fn.Pkg == nil || fn.Pkg.Pkg.Path() != ir.MastPath || c.Facts.debugOnlyFunc(fn) != "" {
+			continue
+		}
+		for _, ci := range CallsOf(fn) {
+			call, ok := ci.(*ssa.Call)
+			if !ok {
+				continue
+			}
+			h := ir.Callee(call.Call)
+			if h == nil || h.Pkg == nil || h.Pkg.Pkg.Path() != ir.MastPath {
+				continue
+			}
+			outer := ir.Outermost(fn)
+			if h != outer && !c.Facts.Reach(h)[outer] {
+				continue
+			}
+			res := h.Signature.Results()
+			ei := ir.ErrorResultIndex(h.Signature)
+			nonErr := 0
+			for i := 0; i < res.Len(); i++ {
+				if i != ei {
+					nonErr++
+				}
+			}
+			if nonErr < 2 {
+				continue
+			}
+			// tail position: all results returned as they are
+			if call.Referrers() != nil {
+				tail := false
+				for _, r := range *call.Referrers() {
+					if _, isRet := r.(*ssa.Return); isRet {
+						tail = true
+					}
+				}
+				if tail {
+					continue
+				}
+			}
+			for i := 0; i < res.Len(); i++ {
+				if i == ei {
+					continue
+				}
+				n++
+				what := fmt.Sprintf("result #%d of the recursive call %s→%s", i, ir.FuncName(fn), ir.FuncName(h))
+				if liveUse(extractAt(call, i), map[ssa.Value]bool{}, 0) {
+					c.OK(P.InstrPos(call), what, "used in live code", false)
+				} else {
+					c.Violation(fn, P.InstrPos(call), fmt.Sprintf("result #%d of the recursive call is dropped", i),
+						"one of the parts the recursion hands back is not used (or only printed by diagnostics): the caller has to obtain it again by reading and splitting the same child a second time, at every level below the insert — the same tree for twice the reads")
+				}
+			}
+		}
+	}
+	if n == 0 {
+		c.AnchorMissing("a recursive call returning two or more results")
+	}
+}
+
+func extractAt(call *ssa.Call, idx int) ssa.Value {
+	if call.Referrers() == nil {
+		return nil
+	}
+	for _, r := range *call.Referrers() {
+		if ex, ok := r.(*ssa.Extract); ok && ex.Index == idx {
+			return ex
+		}
+	}
+	return nil
+}
+
+// liveUse: the value reaches something other than diagnostics: a store, a return, an argument of a call outside
+// dead (debug-only) blocks, a branch condition; through φs, cells and conversions.
+func liveUse(v ssa.Value, seen map[ssa.Value]bool, d int) bool {
+	if v == nil || d > 8 || seen[v] || v.Referrers() == nil {
+		return false
+	}
+	seen[v] = true
+	for _, r := range *v.Referrers() {
+		if _, isDbg := r.(*ssa.DebugRef); isDbg {
+			continue
+		}
+		if ir.IsDead(r.Block()) {
+			continue
+		}
+		switch x := r.(type) {
+		case *ssa.Store:
+			if x.Val == v {
+				// into a variable cell: the variable's loads decide; elsewhere: a live use
+				if a, ok := x.Addr.(*ssa.Alloc); ok {
+					if a.Referrers() != nil {
+						for _, r2 := range *a.Referrers() {
+							if ld, ok := r2.(*ssa.UnOp); ok && ld.Op == token.MUL && liveUse(ld, seen, d+1) {
+								return true
+							}
+						}
+					}
+					continue
+				}
+				return true
+			}
+		case *ssa.Phi, *ssa.MakeInterface, *ssa.ChangeInterface, *ssa.ChangeType, *ssa.Convert, *ssa.TypeAssert, *ssa.Extract:
+			if liveUse(x.(ssa.Value), seen, d+1) {
+				return true
+			}
+		case *ssa.Slice, *ssa.IndexAddr:
+			// the varargs array of a formatting call in live code is still a diagnostic-free use only if that call is live
+			if liveUse(x.(ssa.Value), seen, d+1) {
+				return true
+			}
+		default:
+			return true
+		}
+	}
+	return false
 }
